@@ -179,6 +179,9 @@ func checkC01(c *Ctx, r *Report) {
 
 	// ---- R3
 	checkDrainTypestate(m, r)
+	// parked batches must not share memory with the live buffer (a later append would overwrite them
+	// before they are uploaded or restored)
+	checkBufferFresh(m, r, "C01.R3")
 
 	// ---- R4
 	if fl := needFn(m, r, "C01.R4", pkgStorage, "(*PartitionLog).Flush"); fl != nil {
